@@ -174,6 +174,7 @@ type Frame struct {
 
 // Resolver computes origins within a frame.
 type Resolver struct {
+	busy  map[memoKey]bool
 	depth int
 	memo  map[memoKey]*O
 	// LoopVal, when set, lets the client substitute loop-carried values.
@@ -186,7 +187,7 @@ type memoKey struct {
 	at ssa.Instruction
 }
 
-func NewResolver() *Resolver { return &Resolver{memo: map[memoKey]*O{}} }
+func NewResolver() *Resolver { return &Resolver{memo: map[memoKey]*O{}, busy: map[memoKey]bool{}} }
 
 func unknown(v ssa.Value, why string) *O {
 	return &O{Kind: KUnknown, Name: why, Val: v, Type: v.Type()}
@@ -205,9 +206,15 @@ func (r *Resolver) Of(v ssa.Value, fr *Frame, at ssa.Instruction) *O {
 	if r.depth > 60 {
 		return unknown(v, "depth")
 	}
+	if r.busy[k] {
+		// loop-carried value reached again through its own definition
+		return &O{Kind: KUnknown, Name: "loop:" + v.Name(), Val: v, Type: v.Type()}
+	}
+	r.busy[k] = true
 	r.depth++
 	o := r.of(v, fr, at)
 	r.depth--
+	delete(r.busy, k)
 	r.memo[k] = o
 	return o
 }
@@ -309,7 +316,15 @@ func (r *Resolver) of(v ssa.Value, fr *Frame, at ssa.Instruction) *O {
 		if x.Low == nil && x.High == nil && x.Max == nil {
 			return r.Of(x.X, fr, at)
 		}
-		return unknown(v, "slice-expr")
+		args := []*O{r.Of(x.X, fr, at)}
+		for _, b := range []ssa.Value{x.Low, x.High, x.Max} {
+			if b == nil {
+				args = append(args, &O{Kind: KNil})
+			} else {
+				args = append(args, r.Of(b, fr, at))
+			}
+		}
+		return &O{Kind: KCall, Name: "slice", Index: -1, Type: x.Type(), Args: args, Val: v}
 	case *ssa.FieldAddr:
 		st := x.X.Type().Underlying().(*types.Pointer).Elem().Underlying().(*types.Struct)
 		return &O{Kind: KField, Field: st.Field(x.Field), Type: x.Type(), Args: []*O{r.Of(x.X, fr, at)}, Val: v, Name: "&"}
